@@ -136,4 +136,117 @@ theorem save_tiff_eq (F : Py.Fld K) (cast : DType → K → K) (data : NdArr K) 
     have h4 : ¬ ((rest.length : Int) + 1 + 1 + 1 + 1 + 1 = 4) := by omega
     simp [save_tiff, save_tiff.body, Py.seq, Py.bind, Py.finish, Py.skip, NdArr.ndim, saveModel, promote, h3, h4]
 
+/-! ## `TiffImageStack.__init__` -/
+
+/-- `AXES_ORDER` -/
+def axesOrder : Py.Dict Char Int := [('X', 0), ('Y', 1), ('Z', 2), ('C', 3), ('I', 2)]
+
+/-- `[AXES_ORDER[c] for c in axes]` (KeyError = `none`) -/
+def ordersOf : List Char → Option (List Int)
+  | [] => some []
+  | c :: cs => (Py.Dict.get? axesOrder c).bind fun o => (ordersOf cs).map (o :: ·)
+
+/-- the axes string read from the file is usable: one known letter per axis -/
+def axesValid (ndim : Nat) (axes : List Char) : Bool := axes.length == ndim && axes.all fun c => Py.Dict.contains axesOrder c
+
+/-- the axes string used: the file's if usable, else `ZXYC` (4-d) / `ZXY` -/
+def effAxes (ndim : Nat) (axes : List Char) : List Char :=
+  if axesValid ndim axes then axes else if ndim = 4 then ['Z', 'X', 'Y', 'C'] else ['Z', 'X', 'Y']
+
+/-- the model of `TiffImageStack.__init__`: (warning sites, the stack's array) -/
+def loadModel (F : Py.Fld K) (cast : DType → K → K) (imgs : NdArr K) (axes : List Char) (to : Option DType) : Option (List Int × NdArr K) :=
+  (ordersOf (effAxes imgs.shape.length axes)).bind fun orders =>
+    (transpose imgs (argsort orders)).bind fun t =>
+      (ndModel F cast t to).map fun r => (if axesValid imgs.shape.length axes then [] else [0], r)
+
+theorem for1_loop (F : Py.Fld K) (cast : DType → K → K) : ∀ (l : List Char) (v : tiff_init.V K),
+    ∃ c', Py.forEach (tiff_init.for1 F cast) l v =
+      match ordersOf l with
+      | some os => .next { v with c0_ := v.c0_ ++ os, c := c' }
+      | none => .err := by
+  intro l
+  induction l with
+  | nil => intro v; exact ⟨v.c, by simp [Py.forEach, ordersOf]⟩
+  | cons a l ih =>
+    intro v
+    cases ha : Py.Dict.get? axesOrder a with
+    | none =>
+      refine ⟨v.c, ?_⟩
+      have ha' := ha
+      simp only [axesOrder] at ha'
+      simp only [Py.forEach, tiff_init.for1, Py.bind, ordersOf, ha, ha']
+      simp
+    | some o =>
+      obtain ⟨c', hc⟩ := ih { v with c := a, c0_ := v.c0_ ++ [o] }
+      refine ⟨c', ?_⟩
+      have ha' := ha
+      simp only [axesOrder] at ha'
+      simp only [Py.forEach, tiff_init.for1, Py.bind, ordersOf, ha, ha', hc]
+      cases ordersOf l <;> simp
+
+theorem tiff_init_eq (F : Py.Fld K) (cast : DType → K → K) (imgs : NdArr K) (axes : List Char) (to : Option DType) :
+    tiff_init F cast imgs axes to = loadModel F cast imgs axes to := by
+  have hcond : (decide ((Py.len axes) ≠ (Py.NdArr.ndim imgs)) || (axes.any fun x_ =>
+      !(Py.Dict.contains ([('X', (0 : Int)), ('Y', (1 : Int)), ('Z', (2 : Int)), ('C', (3 : Int)), ('I', (2 : Int))] : Py.Dict Char Int) x_)))
+      = !axesValid imgs.shape.length axes := by
+    simp only [axesValid, Py.len, NdArr.ndim, axesOrder]
+    by_cases hl : axes.length = imgs.shape.length
+    · have : ¬ ((axes.length : Int) ≠ (imgs.shape.length : Int)) := by omega
+      simp [hl, List.any_eq_not_all_not]
+    · have : ((axes.length : Int) ≠ (imgs.shape.length : Int)) := by omega
+      simp [hl, this]
+  have e4 : decide (imgs.ndim = 4) = decide (imgs.shape.length = 4) := by
+    simp only [NdArr.ndim]; congr 1; apply propext; omega
+  simp only [tiff_init, tiff_init.body, Py.seq, Py.bindS, hcond, loadModel, effAxes, e4]
+  have hz4 : "ZXYC".toList = ['Z', 'X', 'Y', 'C'] := by decide
+  have hz3 : "ZXY".toList = ['Z', 'X', 'Y'] := by decide
+  have hw : (default : tiff_init.V K).warnings_ = [] := rfl
+  cases hv : axesValid imgs.shape.length axes
+  · simp only [Bool.not_false, if_true, Bool.false_eq_true, if_false, hz4, hz3, decide_eq_true_eq, hw, List.nil_append]
+    generalize (if imgs.shape.length = 4 then ['Z', 'X', 'Y', 'C'] else ['Z', 'X', 'Y']) = ax
+    obtain ⟨c', hc⟩ := for1_loop F cast ax
+      { imgs := imgs, axes := ax, dtype := to, axes_raw := axes, orders := (default : tiff_init.V K).orders, c := (default : tiff_init.V K).c,
+        warnings_ := [0], c0_ := [] }
+    simp only [hc]
+    cases ordersOf ax with
+    | none => simp [Py.finish]
+    | some os =>
+      simp only [List.nil_append, Py.bind, Option.bind_some]
+      cases transpose imgs (argsort os) with
+      | none => simp [Py.finish]
+      | some t =>
+        simp only [ndarray_init_eq, Option.bind_some]
+        cases ndModel F cast t to <;> simp [Py.finish]
+  · simp only [Bool.not_true, Bool.false_eq_true, if_false, if_true, Py.skip, hw]
+    obtain ⟨c', hc⟩ := for1_loop F cast axes
+      { imgs := imgs, axes := axes, dtype := to, axes_raw := (default : tiff_init.V K).axes_raw, orders := (default : tiff_init.V K).orders,
+        c := (default : tiff_init.V K).c, warnings_ := [], c0_ := [] }
+    simp only [hc]
+    cases ordersOf axes with
+    | none => simp [Py.finish]
+    | some os =>
+      simp only [List.nil_append, Py.bind, Option.bind_some]
+      cases transpose imgs (argsort os) with
+      | none => simp [Py.finish]
+      | some t =>
+        simp only [ndarray_init_eq, Option.bind_some]
+        cases ndModel F cast t to <;> simp [Py.finish]
+
+/-! ## element access -/
+
+theorem ndarray_getitem_eq (imgs : NdArr K) (i j k l : Int) : ndarray_getitem imgs (i, j, k, l) = ndGet imgs [i, j, k, l] := by
+  simp only [ndarray_getitem, ndarray_getitem.body, Py.bind, Py.finish]
+  cases ndGet imgs [i, j, k, l] <;> rfl
+
+theorem ndarray_get_full_eq (imgs : NdArr K) : ndarray_get_full imgs = some imgs := by
+  simp [ndarray_get_full, ndarray_get_full.body, Py.finish]
+
+/-! ## the index arithmetic of the two transpositions -/
+
+theorem unperm_save (x y z c : Nat) : unperm [2, 0, 1, 3] [z, x, y, c] = [x, y, z, c] := rfl
+theorem argsort_zxyc : argsort [2, 0, 1, 3] = [1, 2, 0, 3] := by decide
+theorem argsort_zxy : argsort [2, 0, 1] = [1, 2, 0] := by decide
+theorem unperm_load (x y z c : Nat) : unperm [1, 2, 0, 3] [x, y, z, c] = [z, x, y, c] := rfl
+theorem unperm_load3 (x y z : Nat) : unperm [1, 2, 0] [x, y, z] = [z, x, y] := rfl
+
 end RefineImgIo
